@@ -1,0 +1,67 @@
+//go:build verif
+
+package server
+
+// Contracts for govc (contract-based deductive verification). Comment-only: this file
+// contributes no declarations and is compiled only with -tags verif.
+
+// ---- routing (C05) -------------------------------------------------------------------
+
+//@ spec func matches(nd *RouteNode, segs []string) bool = len(nd.segments) == len(segs) && forall(i, 0, len(segs), !nd.segments[i].isParam ==> nd.segments[i].value == segs[i])
+//@ spec rec func npar(segs [0]pathSegment, off int, k int) int = ite(k <= 0, 0, npar(segs, off, k-1) + ite(segs[off+k-1].isParam, 1, 0))
+//@ spec func nparams(nd *RouteNode) int = npar(row(nd.segments), off(nd.segments), len(nd.segments))
+//@ spec func distinctNames(nd *RouteNode) bool = forall(i, 0, len(nd.segments), forall(j, 0, i, nd.segments[i].isParam && nd.segments[j].isParam ==> nd.segments[i].paramName != nd.segments[j].paramName))
+//@ spec func bound(nd *RouteNode, segs []string, m map[string]string) bool = forall(i, 0, len(segs), nd.segments[i].isParam ==> has(m, nd.segments[i].paramName) && m[nd.segments[i].paramName] == segs[i])
+
+//@ func splitPath
+//@   modifies nothing
+//@   functional
+//@   ensures fresh(result)
+//@   ensures forall(i, 0, len(result), result[i] != "")
+//@   ensures forall(i, 0, len(result), exists(k, 0, fnlen(strings.Split, path, "/"), result[i] == fnat(strings.Split, path, "/", k)))
+//@   ensures forall(k, 0, fnlen(strings.Split, path, "/"), fnat(strings.Split, path, "/", k) != "" ==> exists(i, 0, len(result), result[i] == fnat(strings.Split, path, "/", k)))
+//@   loop 1 invariant 0 <= rangeidx && rangeidx <= len(parts) && fresh(segments) && base(segments) != base(parts)
+//@   loop 1 invariant forall(i, 0, len(segments), segments[i] != "")
+//@   loop 1 invariant forall(i, 0, len(segments), exists(k, 0, len(parts), segments[i] == parts[k]))
+//@   loop 1 invariant forall(k, 0, rangeidx, parts[k] != "" ==> exists(j, 0, len(segments), segments[j] == parts[k]))
+//@   loop 1 invariant forall(k, 0, len(parts), parts[k] == fnat(strings.Split, path, "/", k))
+
+//@ func matchRoute
+//@   requires node != nil && distinctNames(node)
+//@   modifies nothing
+//@   ensures result1 == matches(node, pathSegments)
+//@   ensures !result1 ==> result == nil
+//@   ensures result1 ==> result != nil && fresh(result)
+//@   ensures result1 ==> len(result) == nparams(node)
+//@   ensures result1 ==> bound(node, pathSegments, result)
+//@   ensures result1 ==> forall(s, string, has(result, s) ==> exists(i, 0, len(pathSegments), node.segments[i].isParam && node.segments[i].paramName == s))
+//@   loop 1 invariant 0 <= i && i <= len(node.segments) && params != nil && fresh(params)
+//@   loop 1 invariant forall(j, 0, i, !node.segments[j].isParam ==> node.segments[j].value == pathSegments[j])
+//@   loop 1 invariant len(params) == npar(row(node.segments), off(node.segments), i)
+//@   loop 1 invariant forall(j, 0, i, node.segments[j].isParam ==> has(params, node.segments[j].paramName) && params[node.segments[j].paramName] == pathSegments[j])
+//@   loop 1 invariant forall(s, string, has(params, s) ==> exists(j, 0, i, node.segments[j].isParam && node.segments[j].paramName == s))
+
+//@ spec func wfRoutes(r *Router, m HTTPMethod) bool = forall(i, 0, len(r.routes[m]), r.routes[m][i] != nil && distinctNames(r.routes[m][i]))
+//@ spec func normPath(p string) string = ite(libcall(strings.HasPrefix, libcall(strings.TrimSpace, p), "/"), libcall(strings.TrimSpace, p), "/" + libcall(strings.TrimSpace, p))
+//@ spec func isSplit(segs []string, p string) bool = len(segs) == fnlen(splitPath, p) && forall(i, 0, len(segs), segs[i] == fnat(splitPath, p, i))
+//@ spec func better(a *RouteNode, i int, b *RouteNode, j int) bool = nparams(a) < nparams(b) || (nparams(a) == nparams(b) && i <= j)
+// matchesP / boundP: the same notions over the abstract segment sequence of a (normalised) request path
+//@ spec func matchesP(nd *RouteNode, p string) bool = len(nd.segments) == fnlen(splitPath, p) && forall(i, 0, fnlen(splitPath, p), !nd.segments[i].isParam ==> nd.segments[i].value == fnat(splitPath, p, i))
+//@ spec func boundP(nd *RouteNode, p string, m map[string]string) bool = forall(i, 0, fnlen(splitPath, p), nd.segments[i].isParam ==> has(m, nd.segments[i].paramName) && m[nd.segments[i].paramName] == fnat(splitPath, p, i))
+//@ spec func selectedP(rs []*RouteNode, p string, i int) bool = matchesP(rs[i], p) && forall(j, 0, len(rs), matchesP(rs[j], p) ==> better(rs[i], i, rs[j], j))
+
+// Match: the route returned is, among the nodes registered for exactly this method that match
+// the request path, the one with the fewest parameter segments, earliest declaration on ties;
+// the parameter map binds every parameter to the corresponding request segment; an error iff
+// nothing matches.
+//@ func (*Router).Match
+//@   requires r != nil && wfRoutes(r, method)
+//@   modifies nothing
+//@   ensures err == nil ==> result1 != nil
+//@   ensures err != nil ==> result == nil && result1 == nil
+//@   ensures !has(r.routes, method) ==> err != nil
+//@   ensures err == nil ==> exists(i, 0, len(r.routes[method]), selectedP(r.routes[method], normPath(path), i) && result == r.routes[method][i].route && boundP(r.routes[method][i], normPath(path), result1))
+//@   ensures err != nil ==> forall(j, 0, len(r.routes[method]), !matchesP(r.routes[method][j], normPath(path)))
+//@   loop 1 invariant 0 <= rangeidx && rangeidx <= len(routes) && isSplit(pathSegments, normPath(old(path)))
+//@   loop 1 invariant best == nil ==> forall(j, 0, rangeidx, !matches(routes[j], pathSegments))
+//@   loop 1 invariant best != nil ==> exists(i, 0, rangeidx, routes[i] == best && matches(best, pathSegments) && bestParams != nil && len(bestParams) == nparams(best) && bound(best, pathSegments, bestParams) && forall(j, 0, rangeidx, matches(routes[j], pathSegments) ==> better(best, i, routes[j], j)))
